@@ -23,6 +23,7 @@ type Reader struct {
 	cpyLen int       // Bytes left to copy in current command
 	last   bool      // Last block bit detected
 	err    error     // Persistent error
+	done   bool      // Has Close completed successfully?
 
 	step      func(*Reader) // Single step of decompression work (can panic)
 	stepState int           // The sub-step state for certain steps
@@ -103,9 +104,9 @@ func (br *Reader) Read(buf []byte) (int, error) {
 }
 
 func (br *Reader) Close() error {
-	if br.err == io.EOF || br.err == io.ErrClosedPipe {
+	if br.err == io.EOF || br.done {
 		br.toRead = nil // Make sure future reads fail
-		br.err = io.ErrClosedPipe
+		br.err, br.done = io.ErrClosedPipe, true
 		return nil
 	}
 	return br.err // Return the persistent error
